@@ -28,7 +28,8 @@ from fjv.core import Check, MachineryFailure
 POOL_LABELS = ["x", "y", "i", "d", "n", "t"]
 POOL_PARAMS = ["x", "y", "i", "n"]
 POOL_LOCALS = ["t", "i", "d", "y"]
-POOL_ITERS = ["i", "d", "x"]
+POOL_ITERS = ["i", "d", "x", "k"]          # "k" is in no other pool: a constant may be spelled like it (see CONST_NAME)
+CONST_NAME = "k"
 NAMESPACES = [[], [], ["a"], ["a", "b"], ["c"]]
 
 
@@ -186,7 +187,11 @@ def gen_ast(rng: random.Random, w: int) -> dict:
                         ren(s_[key])
                 for a_ in s_.get("args", []):
                     ren(a_)
-    return {"defs": defs, "main": main}
+    # now and then the program also defines a CONSTANT spelled like a rep iterator (and like nothing else): inside a rep's own
+    # arguments the name is the iterator (FJMacro!IterConstClash marks such programs: refusing them is as good as
+    # assembling them with the iterator's meaning; silently using the constant is not)
+    consts = [CONST_NAME] if rng.random() < 0.3 else []
+    return {"defs": defs, "main": main, "consts": consts}
 
 
 def jexpr(e: dict) -> dict:
@@ -209,7 +214,7 @@ def jstmt(s: dict) -> dict:
 def jast(ast: dict) -> dict:
     return {"defs": [{"ns": d["ns"], "name": d["name"], "params": d["params"], "locals": d["locals"], "body": [jstmt(s) for s in d["body"]]}
                      for d in ast["defs"]],
-            "main": [jstmt(s) for s in ast["main"]]}
+            "main": [jstmt(s) for s in ast["main"]], "consts": list(ast.get("consts", []))}
 
 
 def rexpr(e: dict) -> str:
@@ -299,7 +304,7 @@ def render_items(ast: dict) -> List[str]:
             text = f"{ind}ns {d['ns'][depth]} {{\n{text}\n{ind}}}"
         items.append(text)
     mains = [rstmt(s, "") for s in ast["main"]]
-    return mains[:2] + items + mains[2:]
+    return [f"{c} = 5" for c in ast.get("consts", [])] + mains[:2] + items + mains[2:]
 
 
 def assemble_files(texts: List[str], w: int, workdir: Path, tag: str):
@@ -372,6 +377,9 @@ def _case(args):
             if orig["ok"]:
                 return [{"what": "a label defined twice (by two expansions that name the same label) is accepted", **ctx}]
             return [{"skipped": "duplicate label: rejected, as it must be"}]
+        if inl.get("itconst") and not orig["ok"] and flat["ok"]:
+            if CONST_NAME in orig["err"] and not orig["err"].startswith("raw"):
+                return [{"skipped": "a rep iterator spelled like a constant: refused with a diagnostic naming it"}]
         if not flat["ok"] and not orig["ok"]:
             return [{"skipped": "neither the program nor its inlining assembles: " + flat["err"][:120]}]
         if not flat["ok"]:
